@@ -14,6 +14,10 @@ checks = {
          "Every response delivered to the instrumented client-side ResponseWriter is checked by a strict validator of the client's own protocol (status, content-type, envelopes, declared compression vs bytes, Content-Length, exactly one terminal disposition) over 25k/500k scenarios with varied backend behaviour; pass-through responses are excluded (they are the backend's).", "5/C03"),
  "C04": ("exploration", "equality of (code, message, details) across the transcoder + published code tables, near-exhaustive small domains",
          "Codes 1..16 and out-of-range codes x message pool x 0..3 typed details x error position x client forms x target protocols (12k/240k cases, thorough enumerates every HTTP status 300..599 for bare failures); client-decoded error compared with the backend's, HTTP status with the published tables; transcoder panics are violations.", "5/C04"),
+ "C06": ("exploration", "reference google.api.http template matcher (set of matches) + permutation metamorphism over generated route tables",
+         "1.5k/30k generated route tables accepted by NewTranscoder, each probed with ~40 derived and perturbed raw paths x HTTP methods (quick ~180k, thorough ~3.6M requests through ServeHTTP); dispatch must be justified by a matching binding with once-decoded captures, no match => 404, single (or single all-literal) template => its binding or 405 with Allow within the template's methods, RPC paths exact, and outcomes identical under rule permutation and re-construction. Ambiguous readings of the grammar are excluded from the strict clauses.", "5/C06"),
+ "C07": ("exploration", "reference REST renderer/binder, chained-transcoder round trip, ill-typed parameter enumeration",
+         "18k/360k cases over all REST-bound Kitchen rules: reference-rendered REST requests must bind to the original message; RPC messages converted to REST must re-parse under the same rule to the original; RPC->REST->RPC through two chained transcoders must be the identity; ill-typed path/query values must be rejected as invalid_argument without dispatch; unknown query keys rejected unless configured to be discarded.", "5/C07"),
  "C08": ("exploration", "metamorphic comparison against a reference segmentation, exhaustive compositions for streams <= 13 bytes",
          "Each base scenario is re-executed under ~45 read/write segmentations (client chunkings, handler read buffers 1..8/64/4096, handler write plans) and, in the thorough tier, under all 2^(n-1) compositions of request bodies and response streams of at most 13 bytes; decoded views must be identical to the reference run, raw bytes too wherever nothing is re-encoded in binary form. Adapter-path hooks must all have fired or the run is inconclusive.", "5/C08"),
  "C09": ("fault_enumeration", "fault enumeration (every cut offset, flag value, bit flip, length lie) with a fault-aware backend and non-OK / prefix / well-formedness oracles",
